@@ -150,6 +150,30 @@ def fields(line):
     return dict(w.split("=", 1) for w in line.split() if "=" in w)
 
 
+def retry_timeouts(answers, timed_out, skipped, rerun):
+    """G2: a time-out alone is re-tried once before it is reported.  `answers` (a list, changed in place) holds one
+    answer per case; `timed_out(a)` / `skipped(a)` classify an answer (the harness answers `skipped` for the rest of a
+    batch after MAX_TIMEOUTS hanging cases); `rerun(indices)` runs those cases again -- fresh jail, fresh harness
+    process -- and returns their answers.  The timed-out cases are re-run one by one until one of them hangs AGAIN
+    (then the hang is real: the others keep their first answer); if none does, the time-outs were the machine's, and
+    the skipped cases are run after all.  Returns the number of cases re-tried."""
+    t = [i for i, a in enumerate(answers) if timed_out(a)]
+    n, confirmed = 0, False
+    for i in t:
+        (a,) = rerun([i])
+        n += 1
+        answers[i] = a
+        if timed_out(a):
+            confirmed = True
+            break
+    if t and not confirmed:
+        s = [i for i, a in enumerate(answers) if skipped(a)]
+        if s:
+            for i, a in zip(s, rerun(s)):
+                answers[i] = a
+    return n
+
+
 # branches of the receiver automaton (tags of Driver/PcpDrv.lean covRun) taken by the model runs of this check run
 BRANCHES = {}
 EXPECTED_BRANCHES = (
